@@ -37,9 +37,9 @@ type c10Fault struct {
 	Kind string `json:"kind"`
 }
 
-var c10KeyKinds = []string{world.FaultError, world.FaultCtxDeadline, world.FaultNilRecord, world.FaultNoCert, world.FaultNoKey, world.FaultEmptyCert, world.FaultGarbageCert, world.FaultZeroKey, world.FaultMismatch, world.FaultForeignKey}
-var c10ErrKinds = []string{world.FaultError, world.FaultCtxDeadline, world.FaultCtxCanceled}
-var c10UserKinds = []string{world.FaultError, world.FaultCtxDeadline, world.FaultCtxCanceled, world.FaultPartial}
+var c10KeyKinds = []string{world.FaultError, world.FaultCtxDeadline, world.FaultErrWithValue, world.FaultNilRecord, world.FaultNoCert, world.FaultNoKey, world.FaultEmptyCert, world.FaultGarbageCert, world.FaultZeroKey, world.FaultMismatch, world.FaultForeignKey}
+var c10ErrKinds = []string{world.FaultError, world.FaultCtxDeadline, world.FaultCtxCanceled, world.FaultErrWithValue}
+var c10UserKinds = []string{world.FaultError, world.FaultCtxDeadline, world.FaultCtxCanceled, world.FaultPartial, world.FaultErrWithValue}
 
 // soft kinds are not in the statement's list of failures (the answer is well-typed but useless): only the
 // no-panic / no-Success-assertion clauses apply to them.
@@ -391,7 +391,7 @@ func runC10(ctx Ctx) int {
 	}
 	run := ev.NewRun("C10")
 	run.Level = "fault_enumeration"
-	run.Rule = "for each of the endpoint scenarios (SSO x4, callback x {POST, Redirect} x {done, pending, unknown id} + unusable configured algorithms, logout, attribute query x2, metadata with signing off/on/unusable algorithm, certificate, ready, healthz) the fault-free run records the ordered storage call trace; every call occurrence x every applicable fault kind (returned error, context deadline / cancellation error; user-info: error after some setters were already called; for the key getters: nil record, key without certificate, certificate without key, empty certificate, garbage certificate, zero key, certificate of another key, private key of another certificate) is injected singly, and for every run that continues past the fault every later call occurrence is faulted too (all pairs; thorough: triples); traces are re-recorded on every run; after every single fault the same request is sent again to the same provider with storage healthy and must get the fault-free outcome; every plan is also run AFTER the same request was served fault-free by the same provider (occurrences counted from the second request); a case whose handler starts goroutines is re-run under the controlled scheduler for every interleaving (preemption bound 1 quick / 2 thorough, statement granularity). A case is distinct by (scenario, fault plan)"
+	run.Rule = "for each of the endpoint scenarios (SSO x4, callback x {POST, Redirect} x {done, pending, unknown id} + unusable configured algorithms, logout, attribute query x2, metadata with signing off/on/unusable algorithm, certificate, ready, healthz) the fault-free run records the ordered storage call trace; every call occurrence x every applicable fault kind (returned error, context deadline / cancellation error, an error returned together with the value a healthy call would have returned; user-info: error after some setters were already called; for the key getters: nil record, key without certificate, certificate without key, empty certificate, garbage certificate, zero key, certificate of another key, private key of another certificate) is injected singly, and for every run that continues past the fault every later call occurrence is faulted too (all pairs; thorough: triples); traces are re-recorded on every run; after every single fault the same request is sent again to the same provider with storage healthy and must get the fault-free outcome; every plan is also run AFTER the same request was served fault-free by the same provider (occurrences counted from the second request); a case whose handler starts goroutines is re-run under the controlled scheduler for every interleaving (preemption bound 1 quick / 2 thorough, statement granularity). A case is distinct by (scenario, fault plan)"
 	run.Assume = []string{"garbage certificate bytes and a zero rsa.PrivateKey are outside the statement's list of failures: for them only the no-panic and no-usable-Success clauses are applied", "faults are injected at the storage interface only"}
 	scs := c10Scenarios()
 	byName := map[string]c10Scenario{}
